@@ -2,6 +2,7 @@ package main
 
 import (
 	"bytes"
+	"net"
 	"encoding/json"
 	"fmt"
 	"io"
@@ -95,6 +96,9 @@ func pendingCounts() []int {
 // loop of the new server has parked on a virtual timer (one more pending
 // entry per period than before the start).
 func waitServerParked(before []int) error {
+	if vtime.Real() {
+		return nil
+	}
 	for i, d := range serverLoopPeriods() {
 		if !vtime.WaitPending(d, before[i]+1, 10*time.Second) {
 			return fmt.Errorf("background loop with period %v did not park", d)
@@ -227,23 +231,33 @@ func safely(f func()) (panicked string) {
 // syncRaw performs one TCP sync request against the real handler over an
 // in-memory connection and returns the raw reply bytes.
 func (w *srvWorld) syncRaw(req []byte) (reply []byte, panicked string) {
-	c1, c2 := netPipe()
-	done := make(chan string, 1)
-	go func() {
-		done <- safely(func() { w.S.VerifSyncConn(c2) })
-		c2.Close()
-	}()
-	if len(req) > 0 {
-		c1.Write(req)
-	}
-	if len(req) < 4 {
-		c1.Close() // half-sent request, then hang up
-		return nil, <-done
-	}
-	reply, _ = io.ReadAll(c1)
-	c1.Close()
-	return reply, <-done
+	c := &memConn{r: bytes.NewReader(req)}
+	panicked = safely(func() { w.S.VerifSyncConn(c) })
+	return c.w.Bytes(), panicked
 }
+
+// memConn is an in-memory connection: the request is preloaded, everything
+// the handler writes is collected. It lets the real handler run on the
+// calling goroutine (so that it is a schedulable thread under E1).
+type memConn struct {
+	r      *bytes.Reader
+	w      bytes.Buffer
+	closed bool
+}
+
+func (c *memConn) Read(b []byte) (int, error)  { return c.r.Read(b) }
+func (c *memConn) Write(b []byte) (int, error) { return c.w.Write(b) }
+func (c *memConn) Close() error                { c.closed = true; return nil }
+func (c *memConn) LocalAddr() net.Addr         { return memAddr{} }
+func (c *memConn) RemoteAddr() net.Addr        { return memAddr{} }
+func (c *memConn) SetDeadline(time.Time) error      { return nil }
+func (c *memConn) SetReadDeadline(time.Time) error  { return nil }
+func (c *memConn) SetWriteDeadline(time.Time) error { return nil }
+
+type memAddr struct{}
+
+func (memAddr) Network() string { return "mem" }
+func (memAddr) String() string  { return "mem" }
 
 type syncReply struct {
 	Refused   bool
